@@ -309,30 +309,113 @@ func genRegex(rt *rapid.T, name string, hiCard int) string {
 	}
 }
 
-func genMatcher(rt *rapid.T, name string, hiCard int) *labels.Matcher {
-	typ := rapid.SampledFrom([]labels.MatchType{labels.MatchEqual, labels.MatchEqual, labels.MatchNotEqual, labels.MatchRegexp, labels.MatchRegexp, labels.MatchNotRegexp}).Draw(rt, "mtype")
-	var v string
-	if typ == labels.MatchEqual || typ == labels.MatchNotEqual {
-		v = rapid.SampledFrom(valuePool(name, hiCard)).Draw(rt, "mval")
-	} else {
-		v = genRegex(rt, name, hiCard)
-	}
-	return labels.MustNewMatcher(typ, name, v)
+// matcherGen describes the selector space of one scenario.
+type matcherGen struct {
+	nonExt  []string            // names that are not an external label of any store involved (frequent first)
+	extVals map[string][]string // external label name -> values used by the stores involved
+	stored  map[string][]string // stored label name -> values present (biases towards selectors that match something)
+	hiCard  int
+	maxN    int
 }
 
-// genMatchers draws 1..3 matchers; the first one is on a name of nonExt (a label name that is not an
-// external label of any store involved), the others on any name of nonExt+anyNames. The order is then shuffled.
-func genMatchers(rt *rapid.T, nonExt, anyNames []string, hiCard int, maxN int) []*labels.Matcher {
-	n := rapid.IntRange(1, maxN).Draw(rt, "nmatchers")
-	all := append(append([]string{}, nonExt...), anyNames...)
-	ms := []*labels.Matcher{genMatcher(rt, rapid.SampledFrom(nonExt).Draw(rt, "mname0"), hiCard)}
+func (g matcherGen) matcher(rt *rapid.T, name string) *labels.Matcher {
+	pool := valuePool(name, g.hiCard)
+	if vs := g.extVals[name]; len(vs) > 0 && rapid.IntRange(0, 9).Draw(rt, "extHit") < 7 {
+		pool = vs
+	} else if vs := g.stored[name]; len(vs) > 0 && rapid.IntRange(0, 9).Draw(rt, "storedHit") < 7 {
+		pool = vs
+	}
+	val := func() string { return rapid.SampledFrom(pool).Draw(rt, "mval") }
+	switch rapid.IntRange(0, 19).Draw(rt, "mkind") {
+	case 0, 1, 2, 3, 4:
+		return labels.MustNewMatcher(labels.MatchEqual, name, val())
+	case 5:
+		return labels.MustNewMatcher(labels.MatchEqual, name, "")
+	case 6, 7, 8:
+		return labels.MustNewMatcher(labels.MatchNotEqual, name, val())
+	case 9:
+		return labels.MustNewMatcher(labels.MatchNotEqual, name, "")
+	case 10, 11, 12:
+		n := rapid.IntRange(2, 4).Draw(rt, "nset")
+		vs := make([]string, n)
+		for i := range vs {
+			vs[i] = val()
+		}
+		return labels.MustNewMatcher(labels.MatchRegexp, name, strings.Join(vs, "|"))
+	case 13:
+		return labels.MustNewMatcher(labels.MatchRegexp, name, ".+")
+	case 14, 15:
+		return labels.MustNewMatcher(labels.MatchRegexp, name, genRegex(rt, name, g.hiCard))
+	case 16, 17:
+		n := rapid.IntRange(1, 3).Draw(rt, "nnset")
+		vs := make([]string, n)
+		for i := range vs {
+			vs[i] = val()
+		}
+		return labels.MustNewMatcher(labels.MatchNotRegexp, name, strings.Join(vs, "|"))
+	default:
+		return labels.MustNewMatcher(labels.MatchNotRegexp, name, genRegex(rt, name, g.hiCard))
+	}
+}
+
+// draw returns 1..maxN matchers; at least one is on a name of nonExt (a label name that is not an external
+// label of any store involved — all Thanos stores require that), the others on any stored or external name.
+func (g matcherGen) draw(rt *rapid.T) []*labels.Matcher {
+	n := 1
+	if g.maxN > 1 {
+		n = rapid.SampledFrom([]int{1, 1, 2, 2, 2, 2, 3, 3}).Draw(rt, "nmatchers")
+		if n > g.maxN {
+			n = g.maxN
+		}
+	}
+	var extN []string
+	for e := range g.extVals {
+		extN = append(extN, e)
+	}
+	sort.Strings(extN)
+	pickNonExt := func(label string) string {
+		// earlier names are more frequent
+		i := rapid.IntRange(0, len(g.nonExt)-1).Draw(rt, label)
+		j := rapid.IntRange(0, len(g.nonExt)-1).Draw(rt, label+"b")
+		if j < i {
+			i = j
+		}
+		return g.nonExt[i]
+	}
+	ms := []*labels.Matcher{g.matcher(rt, pickNonExt("mname0"))}
 	for i := 1; i < n; i++ {
-		ms = append(ms, genMatcher(rt, rapid.SampledFrom(all).Draw(rt, "mname"), hiCard))
+		if len(extN) > 0 && rapid.IntRange(0, 3).Draw(rt, "onExt") == 0 {
+			ms = append(ms, g.matcher(rt, rapid.SampledFrom(extN).Draw(rt, "mnameE")))
+		} else {
+			ms = append(ms, g.matcher(rt, pickNonExt("mname")))
+		}
 	}
 	if len(ms) > 1 && rapid.Bool().Draw(rt, "rot") {
 		ms = append(ms[1:], ms[0])
 	}
 	return ms
+}
+
+// extValsOf collects name -> values over external label sets; names listed in always are present even if
+// no store uses them (matchers on them then behave like matchers on absent stored labels).
+func extValsOf(exts []labels.Labels, always ...string) map[string][]string {
+	m := map[string]map[string]bool{}
+	for _, n := range always {
+		m[n] = map[string]bool{}
+	}
+	for _, e := range exts {
+		e.Range(func(l labels.Label) {
+			if m[l.Name] == nil {
+				m[l.Name] = map[string]bool{}
+			}
+			m[l.Name][l.Value] = true
+		})
+	}
+	out := map[string][]string{}
+	for n, vs := range m {
+		out[n] = sortedKeys(vs)
+	}
+	return out
 }
 
 // genTimes draws n strictly increasing timestamps starting at or after lo.
@@ -355,12 +438,12 @@ func genRange(rt *rapid.T, dmin, dmax int64, marks []int64) (int64, int64) {
 		}
 		return rapid.Int64Range(dmin-10, dmax+10).Draw(rt, label)
 	}
-	switch rapid.IntRange(0, 9).Draw(rt, "rangeKind") {
-	case 0, 1:
+	switch rapid.IntRange(0, 13).Draw(rt, "rangeKind") {
+	case 0, 1, 2, 3:
 		return math.MinInt64 / 2, math.MaxInt64 / 2
-	case 2:
+	case 4:
 		return dmax + 1 + rapid.Int64Range(0, 5).Draw(rt, "after"), dmax + 100
-	case 3:
+	case 5:
 		return dmin - 100, dmin - 1 - rapid.Int64Range(0, 5).Draw(rt, "before")
 	default:
 		a, b := pick("r1"), pick("r2")
@@ -784,13 +867,21 @@ func resolveExt(ms []*labels.Matcher, ext labels.Labels) (rest []*labels.Matcher
 // ---------------------------------------------------------------------------------------------
 // BucketStore construction
 
+// dynLimits are limits that can be changed between requests: the limiter factories are invoked once per
+// request (that is what they exist for: "dynamic limits"), and hand out the real store.Limiter.
+type dynLimits struct {
+	series, chunks atomic.Uint64
+}
+
 type storeKnobs struct {
 	seriesLimit, chunksLimit uint64
+	dyn                      *dynLimits // if set, overrides seriesLimit/chunksLimit per request
 	indexCache               int // 0 off, >0 max size in bytes
 	lazy                     bool
 	estSeriesSize            uint64 // 0: option not set (64 KiB default); >0 fixed estimate
 	estFromStats             map[ulid.ULID]int64 // non-nil: `thanos store` formula over IndexStats.SeriesMaxSize
 	matchRatio               float64
+	maxKeyRatio              float64
 	batchSize                int
 	sampling                 int
 	gap                      uint64
@@ -801,8 +892,8 @@ func (k storeKnobs) String() string {
 	if k.estFromStats != nil {
 		k.estSeriesSize = 7777777 // rendered marker: per-block estimate from index stats
 	}
-	return fmt.Sprintf("sl=%d cl=%d cache=%d lazy=%v est=%d ratio=%.2f batch=%d sampling=%d gap=%d pool=%v",
-		k.seriesLimit, k.chunksLimit, k.indexCache, k.lazy, k.estSeriesSize, k.matchRatio, k.batchSize, k.sampling, k.gap, k.chunkPool)
+	return fmt.Sprintf("sl=%d cl=%d cache=%d lazy=%v est=%d ratio=%.2f/%.1f batch=%d sampling=%d gap=%d pool=%v",
+		k.seriesLimit, k.chunksLimit, k.indexCache, k.lazy, k.estSeriesSize, k.matchRatio, k.maxKeyRatio, k.batchSize, k.sampling, k.gap, k.chunkPool)
 }
 
 func defaultKnobs() storeKnobs {
@@ -894,6 +985,7 @@ func newBucketStore(bkt objstore.Bucket, k storeKnobs) (*liveStore, error) {
 		store.WithSeriesBatchSize(k.batchSize),
 		store.WithLazyExpandedPostings(k.lazy),
 		store.WithSeriesMatchRatio(k.matchRatio),
+		store.WithPostingGroupMaxKeySeriesRatio(k.maxKeyRatio),
 	}
 	if k.estFromStats != nil {
 		m := k.estFromStats
@@ -925,8 +1017,14 @@ func newBucketStore(bkt objstore.Bucket, k storeKnobs) (*liveStore, error) {
 		}
 		opts = append(opts, store.WithChunkPool(p))
 	}
+	clf, slf := store.NewChunksLimiterFactory(k.chunksLimit), store.NewSeriesLimiterFactory(k.seriesLimit)
+	if k.dyn != nil {
+		d := k.dyn
+		clf = func(failed prometheus.Counter) store.ChunksLimiter { return store.NewLimiter(d.chunks.Load(), failed) }
+		slf = func(failed prometheus.Counter) store.SeriesLimiter { return store.NewLimiter(d.series.Load(), failed) }
+	}
 	st, err := store.NewBucketStore(ibkt, fetcher, filepath.Join(dir, "data"),
-		store.NewChunksLimiterFactory(k.chunksLimit), store.NewSeriesLimiterFactory(k.seriesLimit), store.NewBytesLimiterFactory(0),
+		clf, slf, store.NewBytesLimiterFactory(0),
 		store.NewGapBasedPartitioner(k.gap), 2, k.sampling, false, false, time.Minute, opts...)
 	if err != nil {
 		_ = os.RemoveAll(dir)
@@ -938,4 +1036,207 @@ func newBucketStore(bkt objstore.Bucket, k storeKnobs) (*liveStore, error) {
 		return nil, err
 	}
 	return l, nil
+}
+
+// ---------------------------------------------------------------------------------------------
+// scenarios shared by C07 / C08
+
+// lq is one label-API / Series query: selectors, range and the replica labels to drop.
+type lq struct {
+	ms         []*labels.Matcher
+	mint, maxt int64
+	drop       []string
+}
+
+func (q lq) String() string {
+	return fmt.Sprintf("%s@[%d,%d] without=%v", renderMatchers(q.ms), q.mint, q.maxt, q.drop)
+}
+
+// genMemWorld draws the stored series of one in-memory TSDB: shared / rare labels, optionally a stored
+// replica label "r" and stored labels named like external ones (a, b, e), 1..4 generated chunk cuts.
+func genMemWorld(rt *rapid.T, label string, nmax int) []mSeries {
+	var extra []string
+	if rapid.Bool().Draw(rt, label+"storedR") {
+		extra = append(extra, "r")
+	}
+	if rapid.IntRange(0, 3).Draw(rt, label+"storedE") == 0 {
+		extra = append(extra, "e")
+	}
+	lsets := genLabelSets(rt, 1, nmax, nil, extra, 0)
+	out := make([]mSeries, len(lsets))
+	for i, l := range lsets {
+		n := rapid.IntRange(1, 24).Draw(rt, "nsamples")
+		ts := genTimes(rt, rapid.Int64Range(0, 300).Draw(rt, "start"), n, rapid.SampledFrom([]int64{1, 5, 30}).Draw(rt, "step"))
+		s := mSeries{lset: l}
+		var cur []smpl
+		for j, t := range ts {
+			cur = append(cur, smpl{t, float64(i*100 + j)})
+			if j == len(ts)-1 || rapid.IntRange(0, 5).Draw(rt, "cut") == 0 {
+				s.chunks = append(s.chunks, cur)
+				cur = nil
+			}
+		}
+		out[i] = s
+	}
+	return out
+}
+
+func memRange(ws ...[]mSeries) (int64, int64, []int64) {
+	lo, hi := int64(math.MaxInt64), int64(math.MinInt64)
+	var marks []int64
+	for _, w := range ws {
+		for _, s := range w {
+			for _, c := range s.chunks {
+				a, b := c[0].t, c[len(c)-1].t
+				if a < lo {
+					lo = a
+				}
+				if b > hi {
+					hi = b
+				}
+				marks = append(marks, a, b)
+			}
+		}
+	}
+	if lo > hi {
+		lo, hi = 0, 0
+	}
+	return lo, hi, marks
+}
+
+// nonExtNames returns the candidate selector names that are not external labels of any involved store.
+func nonExtNames(exts []labels.Labels) []string {
+	var out []string
+	for _, n := range []string{"a", "__name__", "b", "c", "d", "h", "r", "e", "q"} {
+		isExt := false
+		for _, e := range exts {
+			if e.Has(n) {
+				isExt = true
+			}
+		}
+		if !isExt {
+			out = append(out, n)
+		}
+	}
+	return out
+}
+
+func hasString(xs []string, x string) bool {
+	for _, y := range xs {
+		if y == x {
+			return true
+		}
+	}
+	return false
+}
+
+// ---------------------------------------------------------------------------------------------
+// finding C10/dup-set-matcher-minus-empty-matcher
+
+// sigC10DupSet: BucketStore's postingGroup.mergeKeys subtracts remove keys from add keys with a two-pointer walk
+// that assumes unique keys, but the add keys of a set regex ("1|1|2") are sorted and not de-duplicated; combined
+// with a matcher on the same label name that matches the empty string (a!="1", a="", a!~"1") the duplicate
+// survives the subtraction and series that the second matcher excludes are returned.
+const sigC10DupSet = "C10/dup-set-matcher-minus-empty-matcher"
+
+// dupSetTrigger reports whether ms belongs to that root-cause class: a positive set regex with a duplicated
+// alternative v and another matcher on the same name that matches "" and rejects v.
+func dupSetTrigger(ms []*labels.Matcher) bool {
+	for i, m := range ms {
+		if m.Type != labels.MatchRegexp || m.Matches("") {
+			continue
+		}
+		vals := m.SetMatches()
+		cnt := map[string]int{}
+		for _, v := range vals {
+			cnt[v]++
+		}
+		for v, n := range cnt {
+			if n < 2 {
+				continue
+			}
+			for j, o := range ms {
+				if j != i && o.Name == m.Name && o.Matches("") && !o.Matches(v) {
+					return true
+				}
+			}
+		}
+	}
+	return false
+}
+
+// dedupSets rewrites positive set regexes without duplicated alternatives (same meaning, outside the class).
+func dedupSets(ms []*labels.Matcher) []*labels.Matcher {
+	out := make([]*labels.Matcher, len(ms))
+	for i, m := range ms {
+		out[i] = m
+		if m.Type != labels.MatchRegexp {
+			continue
+		}
+		vals := m.SetMatches()
+		if len(vals) < 2 {
+			continue
+		}
+		seen := map[string]bool{}
+		var uniq []string
+		for _, v := range vals {
+			if !seen[v] {
+				seen[v] = true
+				uniq = append(uniq, v)
+			}
+		}
+		if len(uniq) != len(vals) {
+			out[i] = labels.MustNewMatcher(labels.MatchRegexp, m.Name, strings.Join(uniq, "|"))
+		}
+	}
+	return out
+}
+
+// drawOutside draws selectors and moves them out of the dup-set class if they fall into it (second result).
+func (g matcherGen) drawOutside(rt *rapid.T) ([]*labels.Matcher, bool) {
+	ms := g.draw(rt)
+	if dupSetTrigger(ms) {
+		return dedupSets(ms), true
+	}
+	return ms, false
+}
+
+// storedValsOf collects name -> values over stored label sets.
+func storedValsOf(lsets ...[]labels.Labels) map[string][]string {
+	m := map[string]map[string]bool{}
+	for _, ls := range lsets {
+		for _, l := range ls {
+			l.Range(func(x labels.Label) {
+				if m[x.Name] == nil {
+					m[x.Name] = map[string]bool{}
+				}
+				m[x.Name][x.Value] = true
+			})
+		}
+	}
+	out := map[string][]string{}
+	for n, vs := range m {
+		out[n] = sortedKeys(vs)
+	}
+	return out
+}
+
+func specLsets(specs []blockSpec) []labels.Labels {
+	var out []labels.Labels
+	for _, sp := range specs {
+		for _, s := range sp.series {
+			out = append(out, s.lset)
+		}
+	}
+	return out
+}
+
+func worldLsets(ws ...[]mSeries) []labels.Labels {
+	var out []labels.Labels
+	for _, w := range ws {
+		for _, s := range w {
+			out = append(out, s.lset)
+		}
+	}
+	return out
 }
